@@ -281,6 +281,9 @@ def conc_sum(F, sh, rng):
             y, z = rnd(Ex + rng.randint(-3, 3)), rnd(Ex + rng.randint(-p, 3))
             t = (x + y) + z
             v = [x, y, z, F.step(-t, _small_steps(rng)) if numpy.isfinite(t) else rnd(Ex)]
+        elif pat == "cancelpairs":
+            b = rnd(Ex - rng.randint(p - 2, p + 2))
+            v = [x, b, F.step(-x, rng.choice([0, 0, 1, -1])), F.step(-b, rng.choice([0, 1, -1, 2, -2]))]
         elif pat == "ladder":
             v, E = [x], Ex
             for _ in range(n - 1):
@@ -312,7 +315,7 @@ def conc_sum(F, sh, rng):
             for _ in range(n - 1):
                 E -= p // 2 + rng.randint(-1, 1)
                 v.append(rnd(E))
-    if rng.getrandbits(1):
+    if rng.random() < 0.7:
         rng.shuffle(v)
     return tuple(v)
 
@@ -437,6 +440,31 @@ class Code:
                 out.append((style, inv, False, type(ex).__name__))
         return out
 
+    def pow2_helper(self, fmt, xs):
+        """is_power_of_two with the constants of the repository's own helper get_is_power_of_two_constants
+        (the way traced algorithms obtain Q, P - see tests/test_profile.py), traced to a NumPy function
+        -> (list of bool or None, raised)."""
+        key = ("pow2helper", fmt)
+        try:
+            with warnings.catch_warnings(), numpy.errstate(all="ignore"):
+                warnings.simplefilter("ignore")
+                if key not in self._fma:
+                    fa, fpa, dt = self.fa, self.fpa, bits.FLOAT[fmt]
+
+                    def ispow2_helper(ctx, x):
+                        Q, P = fpa.get_is_power_of_two_constants(ctx, fpa.get_largest(ctx, x))
+                        return fpa.is_power_of_two(ctx, x, Q, P)
+
+                    graph = fa.Context().trace(ispow2_helper, dt)
+                    graph = graph.rewrite(fa.targets.numpy, fa.rewrite, fa.rewrite)
+                    self._fma[key] = fa.targets.numpy.as_function(graph, debug=0, force_cast_arguments=False)
+                r = numpy.asarray(self._fma[key](xs))
+            if r.shape != xs.shape or r.dtype != numpy.bool_:
+                return None, "ResultType:%s%s" % (r.dtype, r.shape)
+            return [bool(b) for b in r], ""
+        except Exception as ex:  # noqa
+            return None, type(ex).__name__
+
     def next_array(self, fmt, xs, up):
         with warnings.catch_warnings(), numpy.errstate(all="ignore"):
             warnings.simplefilter("ignore")
@@ -533,7 +561,7 @@ def chunk_worker(task):
     out = []
     n = 0
     for sh in shapes:
-        for _ in range(reps):
+        for _ in range(reps * (6 if sh[0] == "sum" and sh[2] == "cancelpairs" else 1)):
             if kind == "muladd":
                 args = conc_ps(F, sh, rng, "muladd")
             elif kind in ("sum3", "sum4"):
@@ -578,13 +606,15 @@ def next_events(fmt, xs, cls_every, scalar_every):
     return out
 
 
-def pow2_events(fmt, xs):
+def pow2_events(fmt, xs, cls_every):
     c = code()
     bx = bits.arr_bits(xs)
+    hb, hraised = c.pow2_helper(fmt, xs)
     out = []
     for k in range(len(xs)):
         rs = [dict(v=style, inv=inv, b=b, raised=raised) for style, inv, b, raised in c.pow2_calls(fmt, xs[k])]
-        out.append(dict(kind="pow2", fmt=fmt, x=bx[k], rs=rs, cls=True))
+        rs.append(dict(v="helper", inv=False, b=hb[k] if hb is not None else False, raised=hraised))
+        out.append(dict(kind="pow2", fmt=fmt, x=bx[k], rs=rs, cls=k % cls_every == 0))
     return out
 
 
@@ -674,7 +704,7 @@ def expected_states(np_, s3, sf, s4, ops):
 U1_RUNS = {
     # name: (table cfg or None, main cfg, domain cfg, NP, Stride3, StrideF, Stride4)
     "quick": [("unary", None, "MC_Compound_unary.cfg", "MC_Compound_unary_dom.cfg", 1024, 1, 1, 1, ("next", "pow2")),
-              ("T3", "MC_CompoundTab_T3.cfg", "MC_Compound_quick.cfg", "MC_Compound_dom_quick.cfg", 64, 61, 61, 4093,
+              ("T3", "MC_CompoundTab_T3.cfg", "MC_Compound_quick.cfg", "MC_Compound_dom_quick.cfg", 64, 61, 251, 4093,
                ("sum3", "muladd", "fma", "sum4", "dot2"))],
     "thorough": [("unary", None, "MC_Compound_unary.cfg", "MC_Compound_unary_dom.cfg", 1024, 1, 1, 1, ("next", "pow2")),
                  ("T3", "MC_CompoundTab_T3.cfg", "MC_Compound.cfg", "MC_Compound_dom.cfg", 64, 1, 3, 251,
@@ -774,8 +804,18 @@ def run(tier, seed):
 
 
 def _run(chk, c, pool, u1, quick, seed):
+    import time
     rng = random.Random(seed)
+    phases = {}
+    t_last = [time.time()]
+
+    def phase(name):
+        now = time.time()
+        phases[name] = round(phases.get(name, 0) + now - t_last[0], 1)
+        t_last[0] = now
+
     shapes = export_shapes(chk)
+    phase("shape_export")
     stats = Stats()
     events = []
     eid = [0]
@@ -793,11 +833,13 @@ def _run(chk, c, pool, u1, quick, seed):
     def flush(force=False):
         nonlocal events
         if events and (force or len(events) >= batch):
+            phase("drive")
             validate(chk, events, stats)
+            phase("validate")
             events = []
 
-    reps = dict(muladd=1, sum3=12, sum4=12, dot2=4, fma=1, una=40) if quick else dict(muladd=40, sum3=500, sum4=400, dot2=120, fma=12, una=400)
-    cls_every = 1 if quick else 16
+    reps = dict(muladd=1, sum3=8, sum4=8, dot2=3, fma=1, una=40) if quick else dict(muladd=40, sum3=400, sum4=350, dot2=120, fma=16, una=400)
+    cls_every = 4 if quick else 16
     # ---- scalar operations: forked workers concretise and call, in chunks
     tasks = []
     for fmt in FMTS:
@@ -814,12 +856,12 @@ def _run(chk, c, pool, u1, quick, seed):
     # ---- unary operations: every float16 value; shapes in float32 / float64
     f16 = all_float16()
     push(next_events("float16", f16, 8 if quick else 1, 64))
-    push(pow2_events("float16", f16))
+    push(pow2_events("float16", f16, 8 if quick else 1))
     for fmt in ("float32", "float64"):
         F = Fm(fmt)
         xs = numpy.array([conc_una(F, sh, rng) for sh in shapes["una"] for _ in range(reps["una"])], dtype=F.dt)
         push(next_events(fmt, xs, 4, 16))
-        push(pow2_events(fmt, xs))
+        push(pow2_events(fmt, xs, 1))        # float32: every event classified (note pow2_below_doc_window)
     flush()
     # ---- fused multiply-add: every variant on every concretised product-sum shape (vectorised)
     for fmt in FMTS:
@@ -835,12 +877,15 @@ def _run(chk, c, pool, u1, quick, seed):
             push(evs)
         flush()
     flush(force=True)
+    phase("drive")
     join_u1(chk, u1)
+    phase("wait_for_u1")
+    chk.cov["phase_wall_s"] = phases
     # ---- evidence
     for kind, d in sorted(stats.notes.items()):
         if d.get("pow2_below_doc_window"):
             chk.note("is_power_of_two answers wrongly on %d float32 values in [2^-149, 2^-129), below the documented window" % d["pow2_below_doc_window"])
-    need = {"fma": ["tie", "cancel", "subres", "neartie", "prodtop", "d0", "d1"], "sum3": ["tie", "cancel", "subres", "d0"],
+    need = {"fma": ["tie", "cancel", "subres", "neartie", "prodtop", "restop", "d0", "d1"], "sum3": ["tie", "cancel", "subres", "d0"],
             "sum4": ["tie", "cancel", "subres", "d0"], "muladd": ["tie", "cancel", "subres", "d0"], "dot2": ["cancel", "subres", "d0"],
             "pow2": ["ispow2", "in", "out"], "next": ["in", "out"]}
     for kind, labs in need.items():
@@ -858,9 +903,11 @@ def _run(chk, c, pool, u1, quick, seed):
         "fma variants are evaluated as the repository evaluates them (traced, rewritten, NumPy target) with assume_fma=False, "
         "scale=True; the other operations through utils.NumpyContext scalar calls with the constants the tests pass",
         "s + (e + t) of add_3sum is formed by the specification (FAdd) from the recorded s, e, t",
+        "is_power_of_two call styles: default constants, explicit Q/P as in the tests, each with and without invert, and "
+        "'helper' = Q, P from get_is_power_of_two_constants evaluated through a traced NumPy function",
     ]
     return chk.finish(
-        rule="every float16 value through next (both directions) and is_power_of_two (4 call styles); every TLC operand shape "
+        rule="every float16 value through next (both directions) and is_power_of_two (5 call styles); every TLC operand shape "
              "concretised per format %s times (fma: all 32 variants on each triple); non-trivial = distinct (operation, format, "
              "operand tuple)" % reps,
         distinct_nontrivial=len(stats.nontrivial),
@@ -878,7 +925,7 @@ def reexecute(ev):
     elif kind == "next":
         new = next_events(fmt, numpy.array(args, dtype=bits.FLOAT[fmt]), 1, 1)[0]
     elif kind == "pow2":
-        new = pow2_events(fmt, numpy.array(args, dtype=bits.FLOAT[fmt]))[0]
+        new = pow2_events(fmt, numpy.array(args, dtype=bits.FLOAT[fmt]), 1)[0]
     else:
         new = scalar_event(kind, fmt, tuple(args), True)
     new["id"] = ev.get("id", 0)
